@@ -171,7 +171,8 @@ fn present_member(p: &mut Prepared, t: &mut Tally, src: SocketAddr, bytes: &[u8]
 }
 
 fn record(state: &str, family: &str, src: &str, residue: &str, kind: &str, t: Tally, then_completes: Option<bool>) -> Value {
-    json!({"op":"nodefam","state":state,"family":family,"src":src,"residue":residue,"kind":kind,"members":t.members,"panics":t.panics,
+    let mode = if family.starts_with("foreign-genuine") { "nopanic" } else { "strict" };
+    json!({"op":"nodefam","mode":mode,"state":state,"family":family,"src":src,"residue":residue,"kind":kind,"members":t.members,"panics":t.panics,
            "replies":t.replies,"iface":t.iface,"shape_changes":t.shape_changes,"first_bad":t.first_bad.unwrap_or(json!("none")),
            "bad_tail":t.bad_tail,"bad_other":t.bad_other,"first_tail":t.first_tail.unwrap_or(json!("none")),
            "then_completes": match then_completes { Some(true) => "yes", Some(false) => "no", None => "n/a" }})
@@ -293,6 +294,101 @@ fn c08_job(state: &str, src_kind: &str, tier: &str, stream: u64) -> Vec<Value> {
         }
     }
     out.push(record(state, "sequences", src_kind, "stale", "-", t, None));
+    // F7: genuine handshake datagrams of a DIFFERENT handshake (two other nodes with the same trusted key), replayed
+    // verbatim, several times each: they verify, so they may start a handshake attempt - but nothing may panic
+    let foreign = foreign_handshake(stream + 17);
+    let mut t = Tally::default();
+    for round in 0..3 {
+        for (_, g) in &foreign {
+            present_member(&mut p, &mut t, src, g, None, "foreign-genuine");
+            if round == 1 {
+                p.sim.run_for(1);
+            }
+        }
+    }
+    out.push(record(state, "foreign-genuine-x3", src_kind, "stale", "handshake", t, None));
+    // after everything the outsider sent: the genuine peer's payload still gets through (nothing was left behind)
+    if state == "estab" || state == "estab-linger" {
+        p.sim.run_for(3);
+        let mark = p.sim.delivered.len();
+        let f = eth_frame(mac(10), mac(11), None, &[9u8; 16]);
+        p.sim.iface(1, &f);
+        p.sim.deliver_due();
+        let ok = p.sim.delivered[mark..].iter().any(|(_, port, b)| *port == 1 && *b == f);
+        let mut t = Tally::default();
+        t.members = 1;
+        out.push(record(state, "genuine-after", src_kind, "stale", "data", t, Some(ok)));
+    }
+    out
+}
+
+/// ping, pong and peng of a complete handshake between two other nodes that use the same password
+fn foreign_handshake(stream: u64) -> Vec<(&'static str, Vec<u8>)> {
+    let mut sim: Sim<Frame> = Sim::new(stream);
+    let cfg = base_config(Mode::Switch);
+    sim.add_node(false, &cfg);
+    sim.add_node(false, &cfg);
+    let a = sim.nodes[1].addr;
+    sim.connect(0, a);
+    sim.deliver_due();
+    sim.wire.iter().filter(|d| d.bytes.first() == Some(&0xff)).map(|d| (kind_of(&d.bytes), d.bytes.clone())).collect()
+}
+
+/// C02 / C01 at node level: an address with an OPEN handshake and no established peer (the peer was timed out and is
+/// being re-dialled) receives datagrams that are not handshake messages: datagrams sealed for the previous connection
+/// and forged unsealed payload / control messages.  Nothing may reach the interface, no state may change.
+fn pending_after_estab_job(prop: &str, stream: u64) -> Vec<Value> {
+    let mut out = vec![];
+    let mut sim: Sim<Frame> = Sim::new(stream);
+    let mut cfg = base_config(Mode::Switch);
+    cfg.peer_timeout = 130;
+    sim.add_node(false, &cfg);
+    sim.add_node(false, &cfg);
+    let (va, qa) = (sim.nodes[0].addr, sim.nodes[1].addr);
+    sim.connect(0, qa);
+    sim.deliver_due();
+    let mut sealed: Vec<Vec<u8>> = vec![];
+    for k in 0..5u8 {
+        sim.tick();
+        let f = eth_frame(mac(10), mac(11), None, &[k; 20]);
+        let r = sim.iface(1, &f);
+        for d in &r.sent {
+            if d.to == va {
+                sealed.push(d.bytes.clone());
+            }
+        }
+        sim.deliver_due();
+    }
+    // Q falls silent; V times it out and re-dials: V now holds an open handshake for Q's address and no peer
+    sim.faults.silent.insert(2);
+    for _ in 0..140 {
+        sim.tick();
+        let (peers, pend) = sim.shape(0);
+        if !peers.contains(&2) && pend.contains(&2) {
+            break;
+        }
+    }
+    let (peers, pend) = sim.shape(0);
+    let state = if !peers.contains(&2) && pend.contains(&2) { "pend-after-estab" } else { "unexpected" };
+    let mut p = Prepared { sim, genuine: vec![], held: None };
+    let mut t = Tally::default();
+    for g in &sealed {
+        present_member(&mut p, &mut t, qa, g, Some(&ZERO), "sealed-for-previous-connection");
+    }
+    let mut r = record(state, "old-sealed", "peer", "zero", "sealed", t, None);
+    r["prop"] = json!(prop);
+    out.push(r);
+    let mut t = Tally::default();
+    let frame = eth_frame(mac(10), mac(11), None, &[7u8; 24]);
+    for ty in [0u8, 1, 2, 3, 0x10, 0xfe] {
+        let mut b = vec![ty];
+        b.extend_from_slice(&frame);
+        present_member(&mut p, &mut t, qa, &b, Some(&ZERO), "forged-unsealed");
+        present_member(&mut p, &mut t, addr_of(77), &b, Some(&ZERO), "forged-unsealed");
+    }
+    let mut r = record(state, "forged-unsealed", "peer", "zero", "plain", t, None);
+    r["prop"] = json!(prop);
+    out.push(r);
     out
 }
 
@@ -364,6 +460,20 @@ fn c01_job(state: &str, residue_kind: &str, tier: &str, stream: u64) -> Vec<Valu
         present_member(&mut p, &mut t, qa, &b, Some(&ZERO), "random-marker");
     }
     out.push(record(state, "random-marker", "peer", "zero", "-", t, None));
+    // datagrams that are not handshake messages from a party that has proved nothing (yet): unsealed payload / control
+    // messages of every type; they must not reach the interface nor change anything while no session exists
+    if state != "estab" && state != "estab-linger" {
+        let mut t = Tally::default();
+        let frame = eth_frame(mac(10), mac(11), None, &[5u8; 24]);
+        for ty in [0u8, 1, 2, 3, 0x10, 0xfe] {
+            for src in [qa, addr_of(77)] {
+                let mut b = vec![ty];
+                b.extend_from_slice(&frame);
+                present_member(&mut p, &mut t, src, &b, Some(&ZERO), "non-handshake");
+            }
+        }
+        out.push(record(state, "non-handshake", "any", "zero", "plain", t, None));
+    }
     // functional "unchanged": the genuine datagram that was held back still advances the handshake
     if let Some(h) = p.held.clone() {
         let r = p.sim.present(0, qa, &h);
@@ -423,7 +533,9 @@ fn c01_untrusted(tier: &str, stream: u64) -> Vec<Value> {
 
 pub fn run_fam(which: &str, tier: &str, out_path: &str) -> Value {
     let mut jobs: Vec<(String, String)> = vec![];
-    if which == "c08" {
+    if which == "c02" {
+        jobs.push(("-".into(), "pending-after-estab".into()));
+    } else if which == "c08" {
         for s in STATES {
             for src in ["peer", "unknown"] {
                 jobs.push((s.to_string(), src.to_string()));
@@ -436,9 +548,12 @@ pub fn run_fam(which: &str, tier: &str, out_path: &str) -> Value {
             }
         }
         jobs.push(("-".into(), "untrusted".into()));
+        jobs.push(("-".into(), "pending-after-estab".into()));
     }
     let results = parallel_map(&jobs, |i, (a, b)| {
-        if which == "c08" {
+        if b == "pending-after-estab" {
+            pending_after_estab_job(which, 500 + i as u64)
+        } else if which == "c08" {
             c08_job(a, b, tier, 100 + i as u64)
         } else if b == "untrusted" {
             c01_untrusted(tier, 300)
